@@ -19,6 +19,8 @@ def label_map(prog, scheme):
         return {l: "L%04d" % (7 * i + 3) for i, l in enumerate(labs)}
     if scheme == "long":
         return {l: "a_rather_long_label_name_for_" + l + "_0123456789" for l in labs}
+    if scheme == "reverse":   # new names whose alphabetical order is the reverse of the old one
+        return {l: "z%03d_%s" % (len(labs) - i, l) for i, l in enumerate(labs)}
     if scheme == "swap":      # a permutation of the existing names
         return {l: labs[(i + 1) % len(labs)] for i, l in enumerate(labs)}
     return {}
